@@ -146,13 +146,13 @@ namespace Givaro {
               template< class Random > Element& random(Random& g, Element& r) const
               { return init(r, g()); }
               template< class Random > Element& random(Random& g, Element& r, const Residu_t& size) const
-              { return init(r, g() % size); }
+              { return init(r, size ? g() % size : g()); } // a sampling size of zero means the entire ring (givranditer.h)
               template< class Random > Element& nonzerorandom(Random& g, Element& a) const
               { while (this->isZero(init(a, g())))
                   ;
                   return a; }
               template< class Random > Element& nonzerorandom(Random& g, Element& a, const Residu_t& size) const
-              { while (this->isZero(init(a, g() % size)))
+              { while (this->isZero(init(a, size > 1 ? g() % size : g()))) // sizes 0 and 1 hold no non-zero element: entire ring
                   ;
                   return a; }
           };
